@@ -92,12 +92,14 @@ def worklist(ctx):
                '' if rec else 'the object is expanded without being recorded: if it is reachable from itself it is expanded a '
                'second time (a cyclic root yields duplicate descendants)', node=e)
         if ln in en.loop_stack:
-            tests = [t for t in cfg.nodes if t.kind == 'test' and isinstance(t.ast, ast.Compare) and isinstance(t.ast.ops[0], ast.NotIn)
-                     and isinstance(t.ast.left, ast.Call) and is_name(t.ast.left.func, 'id') and is_name(t.ast.left.args[0], x)
-                     and is_name(t.ast.comparators[0], seen) and cfg.dominates(t, en)]
+            # ``if id(x) not in seen: expand`` or the guard clause ``if id(x) in seen: continue``
+            pols = [(t, polarity(t.ast, 'id(%s) not in %s' % (x, seen))) for t in cfg.nodes if t.kind == 'test']
+            pols = [(t, e_) for t, e_ in pols if e_ and cfg.dominates(t, en)]
+            tests = [t for t, _ in pols]
             guarded = False
-            for t in tests:
-                pth = cfg.find_path(t, {en}, avoid={ln}, start_labels=lambda l: l == 'false', labels=lambda l: l != 'exc')
+            for t, e_ in pols:
+                other = 'false' if e_ == 'true' else 'true'
+                pth = cfg.find_path(t, {en}, avoid={ln}, start_labels=lambda l, o=other: l == o, labels=lambda l: l != 'exc')
                 if pth is None:
                     guarded = True
             ctx.ob(guarded, u, 'inside the loop the expansion is guarded by `id(%s) not in %s`' % (x, seen), node=e)
